@@ -254,12 +254,17 @@ Definition run_it (fwd back : Z -> R (option Z * Z)) (args : list val) : val :=
       end
   | _ => VBad
   end.
+(* the adaptor ops that run an iterator to its end are defined within ten years of that end *)
+Definition near_end (d : Z) (fwd : bool) : bool :=
+  if fwd then 262142 - 9 <=? Date.d_year d else Date.d_year d <=? -262143 + 9.
 Definition run_nth (fwd back : Z -> R (option Z * Z)) (args : list val) : val :=
   match args with
   | [d; VInt n; dir; cap] =>
       match dec_date d, arg_dir dir, arg_small cap with
       | Some d, Some dir, Some cap =>
-          if in_u64 n then
+          (* a jump of more than 3000 items is only asked within ten years of the end it runs to
+             (the implementation would walk up to 191 million steps, the model has fuel for 4000) *)
+          if in_u64 n && ((n <=? 3000) || near_end d dir) then
             val_of_R (fun '(first, (item, cnt)) => VTup [vo_date first; vo_date item; val_of_option VInt cnt])
                      (it_observe_nth (if dir then fwd else back) d n cap)
           else VBad
@@ -271,9 +276,6 @@ Definition run_hint (fwd back : Z -> R (option Z * Z)) (hint : Z -> R (Z * optio
   a3 dec_date arg_small arg_dir args
      (fun d k dir => val_of_R enc_hint (it_hint (if dir then fwd else back) hint d k)).
 
-(* the adaptor ops that run an iterator to its end are defined within ten years of that end *)
-Definition near_end (d : Z) (fwd : bool) : bool :=
-  if fwd then 262142 - 9 <=? Date.d_year d else Date.d_year d <=? -262143 + 9.
 Definition run_end {X} (enc : X -> val) (f : (Z -> R (option Z * Z)) -> Z -> R X)
   (fwd back : Z -> R (option Z * Z)) (args : list val) : val :=
   a2 dec_date arg_dir args (fun d dir =>
